@@ -49,7 +49,7 @@ func genC10(rt *rapid.T) CaseC10 {
 		a := AnnC10{Route: rapid.SampledFrom([]string{"sync", "sync", "topic", "topic", "direct", "direct", "loadmore"}).Draw(rt, "route")}
 		n := rapid.IntRange(1, 4).Draw(rt, "nitems")
 		for j := 0; j < n; j++ {
-			it := ItemC10{Kind: rapid.SampledFrom([]string{"valid", "valid", "nonwriter", "badsig", "sibling", "wronghash"}).Draw(rt, "kind")}
+			it := ItemC10{Kind: rapid.SampledFrom([]string{"valid", "valid", "valid", "nonwriter", "badsig", "sibling", "wronghash", "badparent"}).Draw(rt, "kind")}
 			it.Idx = rapid.IntRange(0, 30).Draw(rt, "idx")
 			a.Items = append(a.Items, it)
 		}
@@ -115,6 +115,22 @@ func execC10(c CaseC10) *Outcome {
 				return nil, err
 			}
 			env.hostile[e.Hash.String()] = "entry written for another database"
+			return e, nil
+		case "badparent":
+			// a valid entry of an authorised writer (it may be merged) naming, besides a real parent, the bytes of
+			// an honest entry under an address they do not hash to (same digest, raw codec): that parent is
+			// refused when it is fetched - a fetch that fails although nothing is wrong with the transport
+			payload, op := opPayload(c.Type, "k2", []byte(fmt.Sprintf("colluder-badparent-%d", idx)))
+			raw := cid.NewCidV1(cid.Raw, base.Hash.Hash())
+			if base.Clock.Time > env.ctime {
+				env.ctime = base.Clock.Time
+			}
+			e, err := env.craftValid(ctx, payload, []cid.Cid{base.Hash, raw})
+			if err != nil {
+				return nil, err
+			}
+			env.registerCrafted(e, env.C, op)
+			env.hostile[raw.String()] = "honest bytes under an address they do not hash to (raw codec)"
 			return e, nil
 		default: // wronghash
 			m := cloneEntry(base)
@@ -228,13 +244,53 @@ func execC10(c CaseC10) *Outcome {
 			return fail("after mixed announcements %s and two honest re-announcements: %v", annSummary(c.Anns), err)
 		}
 	}
+	{
+		// every honest entry has now been announced again by an honest message: all of them are held (a newer
+		// write would start a fresh round and flush whatever an earlier one left behind)
+		var sofar []string
+		for _, h := range env.tr.seq {
+			if _, crafted := env.crafted[h]; !crafted {
+				sofar = append(sofar, h)
+			}
+		}
+		err := cl.W.WaitClaim("every valid entry announced again by the honest messages is held by the replica", func() bool {
+			have := hashSetOf(v)
+			for _, h := range sofar {
+				if !have[h] {
+					return false
+				}
+			}
+			return cl.W.Quiescent([]iface.Store{v}, nil)
+		}, []iface.Store{v}, nil, claimTimeout)
+		if err != nil {
+			if err == world.ErrInconclusive {
+				o.Inconclusive = true
+				return o
+			}
+			have := hashSetOf(v)
+			missing := 0
+			for _, h := range sofar {
+				if !have[h] {
+					missing++
+				}
+			}
+			return fail("after mixed announcements %s and two honest re-announcements (route %s), %d of %d valid entries are still missing: %v", annSummary(c.Anns), c.ReRoute, missing, len(sofar), err)
+		}
+	}
 	if _, err := env.honestWrite(ctx, 0, 1); err != nil {
 		return fail("harness: %v", err)
 	}
 	if err := announceHeads(); err != nil {
 		return fail("harness: %v", err)
 	}
-	all := append([]string{}, env.tr.seq...)
+	// (the honest entries: a valid entry crafted for a hostile announcement - the head naming a bad parent - is
+	// known to the models in case it is merged, but no honest message announces it, so it is not demanded)
+	var all []string
+	for _, h := range env.tr.seq {
+		if _, crafted := env.crafted[h]; !crafted {
+			all = append(all, h)
+		}
+	}
 	err = cl.W.WaitClaim("every valid entry announced by the honest messages is visible on the replica", func() bool {
 		have := hashSetOf(v)
 		for _, h := range all {
